@@ -12,6 +12,24 @@ CLAIMED = {
             "CPython asyncio Task/Future trusted; single consumer as documented; schedules restricted to what a FIFO-ready asyncio loop can produce."),
 }
 
+CLAIMED.update({
+    "C12": ("exploration", "4 (C12)", "deterministic simulation: seeded call/clock-advance/gc histories on a virtual clock, reference LRU-with-expiry oracle",
+            "Seeded search over call histories (<=60 ops, typed-equal argument alphabets, 4 flavours, limits 1..4, expirations) with clock jumps biased to expiry boundaries; safety/must-hit/retention oracle; sampling, not proof.",
+            "time.monotonic replaced by the virtual clock; hit-or-miss at age == expiration and for semantically equal call forms left open (DESIGN 2.8 rule 2); retention measured by weak references after gc.collect()."),
+    "C13": ("fault_enumeration", "4 (C13)", "deterministic simulation: seeded arrival/gate-release schedules, cancel of a caller swept over every loop iteration of the fault-free twin, shared-invocation model",
+            "For sampled caller/key/limit/expiry configurations the cancel of one caller is enumerated over every loop iteration of the recorded fault-free run; random multi-cancel, eviction and expiry in flight besides. Enumeration is over fault positions of sampled schedules, not over all schedules.",
+            "asyncio.shield/Task trusted; arrivals at age == expiration are avoided (covered by C12)."),
+    "C14": ("exploration", "4 (C14)", "deterministic simulation: outcome sequences as fault sequences on a virtual clock (time.sleep / asyncio.sleep seams), cancel swept over loop iterations, reference attempt/pause calculator",
+            "Seeded search over (limit, catching form, delay form, outcome sequence) for sync and async variants with exact virtual timestamps of attempts and sleeps; async cancel enumerated over every loop iteration of sampled runs.",
+            "time.sleep replaced by a recorder that advances the virtual clock; an int delay is a configured number (quantifier of C14)."),
+    "C15": ("exploration", "4 (C15)", "deterministic simulation in exact virtual time: seeded arrival patterns, same-instant tie order, timer lateness and caller cancels; sliding-window/FIFO/no-needless-delay/liveness oracle",
+            "Seeded search over arrival patterns of up to 12 calls around the period boundary, limits 1..4, period as float/int/timedelta, durations and outcomes; profiles with timer lateness and with cancelled queued callers.",
+            "time.monotonic and the loop clock are the same virtual clock (as in CPython where loop.time() is time.monotonic()); instants are multiples of 2^-10 s so comparisons are exact."),
+    "C16": ("fault_enumeration", "4 (C16)", "deterministic simulation in exact virtual time: (duration, outcome, timeout) grids, caller cancel at exact instants and swept over every loop iteration, timer tie order and lateness; outcome+timestamp table, hang detector",
+            "Caller cancellation is enumerated over every loop iteration of sampled fault-free runs and over the instants before/at/between/after the deadline and the function end; hang = loop deadlock with the caller pending.",
+            "At d == T and for instants tied with the cancel either outcome is accepted; with lateness profile ties are widened by the maximal lateness."),
+})
+
 NOT_YET = {
 }
 
